@@ -32,12 +32,13 @@ type counters struct {
 }
 
 type inst struct {
-	c    *cfg
-	q    *queue.Queue[int]
-	twin *queue.Queue[int] // same history, dead slots poisoned before each step
-	ref  []int
-	next int
-	cnt  *counters
+	c             *cfg
+	q             *queue.Queue[int]
+	twin          *queue.Queue[int] // same history, dead slots poisoned before each step
+	ref           []int
+	next          int
+	cnt           *counters
+	emptied, used bool
 }
 
 func newQ(root int) *queue.Queue[int] {
@@ -61,7 +62,7 @@ func (s *inst) Enabled() []op {
 
 func (s *inst) Key() string {
 	h, n, l, c := fields(s.q)
-	return fmt.Sprintf("%d,%d,%d,%d", h, n, l, c)
+	return fmt.Sprintf("%d,%d,%d,%d,%v", h, n, l, c, s.emptied)
 }
 
 func (s *inst) Apply(o op, check bool) *mc.Failure {
@@ -152,6 +153,11 @@ func (s *inst) Apply(o op, check bool) *mc.Failure {
 		}
 	case "clear":
 		s.ref = nil
+	}
+	if len(s.ref) > 0 {
+		s.used = true
+	} else if s.used {
+		s.emptied = true
 	}
 	if !check {
 		return nil
